@@ -292,7 +292,9 @@ def range_deal_case(draw):
 def icm_case(draw):
     n = draw(st.integers(2, 6))
     chips = draw(st.lists(st.integers(1, 10 ** 6), min_size=n, max_size=n))
-    k = draw(st.integers(1, n))
+    # a payout table may be longer than the list of players still in (the
+    # places below the last of them are already taken)
+    k = draw(st.integers(1, n + 2))
     pay = sorted(draw(st.lists(st.integers(0, 10 ** 5), min_size=k,
                                max_size=k)), reverse=True)
     return dict(kind='icm', chips=chips, payouts=pay,
@@ -587,7 +589,10 @@ def check(case, stats):
             if not _is_engine_exception(e):
                 raise     # harness fault: exit 2
             return [V(ID, 'icm', 'raised', f'{e!r} for {pay} {chips}')]
-        tot = sum(pay)
+        # the players share the places they can still take
+        tot = sum(pay[:len(chips)])
+        if len(pay) > len(chips):
+            stats.count('class:more_payouts_than_players')
         eps = 1e-9 * max(1.0, tot)
         if len(icm) != len(chips):
             return [V(ID, 'icm', 'length', f'{icm}')]
